@@ -1834,8 +1834,6 @@ class Analyzer:
                         continue
                     if self.infeasible and (bi, succ) in self.infeasible:
                         continue
-                    if live_in is not None:
-                        so.prune_dead(live_in[succ], body.argc)
                     got[succ] = so if succ not in got else got[succ].join(so)
                 for succ in body.succ[bi]:
                     if succ in got:
